@@ -92,7 +92,7 @@ def run_case(desc):
     at = c.at
     n = len(at)
     # history: call the cached getters in the drawn order on one analyser ...
-    an = SymmetryAnalyzer(at, symmetry_tol=sc.TOL)
+    an = sc.new_analyzer(c, at)
     got = {}
     SET = len(GETTERS)
     order = list(desc["order"])
@@ -111,7 +111,7 @@ def run_case(desc):
     inplace = bool(SET in order and sum(order) % 2 == 0)     # half of the histories re-use one mutated Atoms object
     live = at.copy()
     if inplace:
-        an = SymmetryAnalyzer(live, symmetry_tol=sc.TOL)
+        an = sc.new_analyzer(c, live)
         out.cls("history:set_system-inplace")
     hist = order + ([i for i in range(len(GETTERS)) if i not in order] if SET not in order else list(range(len(GETTERS))))
     names = ["set_system" if j == SET else GETTERS[j] for j in hist]
@@ -144,7 +144,7 @@ def run_case(desc):
             out.fail("getter-repeatable", "%s returns something else on a repeated call (history %s)" % (name, names), key="repeat:" + name)
         got[name] = v
     # ... and once more in canonical order on a fresh analyser: the answers must not depend on the history
-    an2 = SymmetryAnalyzer(at, symmetry_tol=sc.TOL)
+    an2 = sc.new_analyzer(c, at)
     for name in GETTERS:
         ok, v = call(_fetch, an2, name)
         if ok and _norm(name, v) != _norm(name, got[name]):
@@ -182,10 +182,10 @@ def run_case(desc):
         out.fail("primitive-volume", "centring %s: primitive volume %.6f, conventional %.6f (expected ratio %d)" % (cen, vp, vc, m), key="primitive-volume:" + cen)
     pf = np.linalg.solve(np.asarray(prim.get_cell()).T, prim.get_positions().T).T
     pcell = (np.asarray(prim.get_cell()), pf, prim.get_atomic_numbers())
-    dp = spglib.get_symmetry_dataset(pcell, symprec=sc.TOL)
+    dp = spglib.get_symmetry_dataset(pcell, symprec=c.otol)
     if dp is None or int(dp.number) != c.sg:
         out.fail("primitive-same-group", "primitive system has group %s, input %d" % (getattr(dp, "number", None), c.sg), key="primitive-same-group:" + cen)
-    pp = spglib.standardize_cell(pcell, to_primitive=True, no_idealize=True, symprec=sc.TOL)
+    pp = spglib.standardize_cell(pcell, to_primitive=True, no_idealize=True, symprec=c.otol)
     if pp is None or len(pp[2]) != len(prim):
         out.fail("primitive-is-primitive", "spglib reduces the 'primitive' system from %d to %s atoms" % (len(prim), None if pp is None else len(pp[2])), key="primitive-is-primitive:" + cen)
     v0 = abs(np.linalg.det(c.cell)) / n
